@@ -133,8 +133,8 @@ def rule_builder(ck: Check, repo: Repo) -> None:
                         {"valuation": d})
 
 
-def rule_merge(ck: Check, repo: Repo) -> None:
-    r = ck.rule("R3", "merge_copyright_lines: every parsed statement reaches the output with min..max of all its years")
+def rule_merge(ck: Check, repo: Repo, rid: str = "R3") -> None:
+    r = ck.rule(rid, "merge_copyright_lines: every parsed statement reaches the output with min..max of all its years")
     q = f"{CP}.merge_copyright_lines"
     fn = repo.func(q)
     ck.analysed_fn(q, f"{CP}._parse_copyright_year")
@@ -195,14 +195,51 @@ def rule_merge(ck: Check, repo: Repo) -> None:
         if not ok:
             r.violation(q, name, f"the {name} computation changed; the merged range must span every stated year",
                         repo.loc(out_loop))
+    # reader/parser agreement: every year string the reader can capture is understood by _parse_copyright_year
     py = repo.func(f"{CP}._parse_copyright_year")
-    psrc = ast.unparse(py)
-    ok = "re.match('\\\\d{4}$', year)" in psrc and "ret = [year]" in psrc and \
-        "re.match('\\\\d{4} ?- ?\\\\d{4}$', year)" in psrc and "ret = [year[:4], year[-4:]]" in psrc
-    r.instance("_parse_copyright_year", {"ok": ok})
-    if not ok:
-        r.violation(f"{CP}._parse_copyright_year", "year parsing", "YYYY -> [YYYY]; YYYY ?- ?YYYY -> [first, last]",
-                    repo.loc(py))
+    folder = Folder(repo)
+    pats = reader_patterns(folder)
+    year_groups = set()
+    for p in pats:
+        m = re.search(r"\(\?P<year>(.*?)\),\?\\s\+\)\?", p.pattern)
+        if m:
+            year_groups.add(m.group(1))
+    branches = []  # (regex, result expression)
+    for node in ast.walk(py):
+        if isinstance(node, ast.If) and isinstance(node.test, ast.Call) and ast.unparse(node.test.func) in ("re.match", "re.fullmatch") \
+                and len(node.test.args) == 2 and isinstance(node.test.args[0], ast.Constant) and ast.unparse(node.test.args[1]) == "year":
+            res = [ast.unparse(st.value) for st in node.body if isinstance(st, (ast.Assign, ast.Return)) and st.value is not None]
+            rx = node.test.args[0].value
+            if ast.unparse(node.test.func) == "re.fullmatch" and not rx.endswith("$"):
+                rx += "$"
+            branches.append((rx, res[0] if res else None))
+    r.instance("_parse_copyright_year", {"branches": branches, "reader_year_groups": sorted(year_groups)})
+    if not branches or not year_groups:
+        raise AnalysisError("_parse_copyright_year / reader year group: cannot extract the regular expressions")
+    allp = [(b[0], 0) for b in branches] + [("(" + g + ")$", 0) for g in year_groups]
+    alpha = Alphabet(allp, extra="0 -a", exclude="\n")
+    from ..relang import in_a_not_b, union
+    parsed = union(alpha, [Lang.from_regex(b[0], 0, alpha, "match") for b in branches])
+    for g in sorted(year_groups):
+        w = in_a_not_b(Lang.from_regex("(" + g + ")$", 0, alpha, "match"), parsed)
+        if w is not None:
+            r.violation(f"{CP}._parse_copyright_year", f"a year the reader captures is not understood by the merger: {w!r}",
+                        f"the reader's year group /{g}/ accepts {w!r} but none of {[b[0] for b in branches]} matches it: the notice"
+                        f" is merged as if it had no year and the stated years are lost", repo.loc(py), {"witness_year": w})
+    dg = next(c for c in alpha.chars if c.isdigit()) * 4
+    single = [b for b in branches if Lang.from_regex(b[0], 0, alpha, "match").accepts(dg)]
+    rng = [b for b in branches if Lang.from_regex(b[0], 0, alpha, "match").accepts(f"{dg}-{dg}") or
+           Lang.from_regex(b[0], 0, alpha, "match").accepts(f"{dg} - {dg}")]
+    if not single or single[0][1] not in ("[year]",):
+        r.violation(f"{CP}._parse_copyright_year", "single year", f"{single}", repo.loc(py))
+    for rx, res in rng:
+        ok = res in ("[year[:4], year[-4:]]",) or (res is not None and re.fullmatch(r"re\.split\('.*', year\)", res or "") is not None)
+        if res == "year.split(' - ')" and in_a_not_b(Lang.from_regex(rx, 0, alpha, "match"),
+                                                      Lang.from_regex(r"\d{4} - \d{4}$", 0, alpha, "match")) is None:
+            ok = True
+        if not ok:
+            r.violation(f"{CP}._parse_copyright_year", "range endpoints", f"branch /{rx}/ yields {res}; expected the first and last four digits",
+                        repo.loc(py))
 
 
 def rule_get_year(ck: Check, repo: Repo) -> None:
